@@ -1,9 +1,12 @@
 /-
   Props/C15Full.lean — the module audited for C15: Props/C15Velocity.lean (and what it imports) together with
   Props/C15Ieee.lean (the IEEE / real-analysis instantiations) and Props/C15IeeeShift.lean (shift invariance on IEEE doubles
-  with integer times, via Lemmas/ShiftLawsOn.lean, Props/C15ShiftOn.lean, Props/C15ShiftLinesOn.lean). All in namespace Rosu.C15.
+  with integer times, via Lemmas/ShiftLawsOn.lean, Props/C15ShiftOn.lean, Props/C15ShiftLinesOn.lean) and
+  Props/C15IeeeVelocity.lean (the velocity clause on IEEE doubles with a proved 6·2⁻⁵³ relative error bound, via
+  Lemmas/FloatErrMul.lean, Lemmas/FloatErrRange.lean). All in namespace Rosu.C15.
 -/
 import RosuModel.Props.C15Velocity
 import RosuModel.Props.C15Ieee
 import RosuModel.Props.C15IeeeDecoded
 import RosuModel.Props.C15IeeeShift
+import RosuModel.Props.C15IeeeVelocity
